@@ -27,7 +27,7 @@ add('C01', 'exploration',
     'shape with 1..3 and 253 inputs, 0..3 and 253 outputs, witness stack patterns, both classes; headers; blocks of 0..3 and 253 '
     'transactions; CompactSize at the integer level. Every case: byte-exact comparison with an independent wire encoder, round '
     'trip through both classes, every truncation point (all prefixes of short encodings, every field boundary +-1 of long ones) '
-    'and a catalogue of extensions with the exact exception class, carried object and padding. Mutable objects are serialised, edited in place and serialised again; scripts / witness items of MAX_SIZE-1 and MAX_SIZE bytes round-trip.',
+    'and a catalogue of extensions with the exact exception class, carried object and padding. Mutable objects are serialised, edited in place and serialised again; scripts / witness items of MAX_SIZE-1 and MAX_SIZE bytes round-trip. Blocks built from the caller\'s mutable transactions keep their encoding when the caller goes on editing them; a witness slot filled in place on a deserialised mutable transaction switches the encoding and leaves other transactions with the same number of inputs witness-less.',
     'DESIGN.md 3 C01', 'Oracle ref/wire.py (validated on repository literal transactions and by decode(encode) redundancy). '
     'Inside one field body of a long encoding the parser outcome is assumed uniform (it reads field by field).',
     'bounded exhaustive enumeration (deviation-bounded product + exhaustive truncation/extension fault enumeration) against a reference model')
@@ -36,7 +36,7 @@ add('C02', 'exploration',
     'Every base transaction (12 shapes x k<=1/2 field deviations) x every witness assignment (all 5^n stack patterns, absent, '
     'empty object) in both classes: txid/wtxid against sha256d of the reference encodings, equality/hash of twins, txid '
     'invariance under witness replacement, no stale identifiers after field edits, immutable snapshots; sub-object twins; '
-    'block hash = sha256d(80-byte header) for constructed and deserialised blocks (arbitrary merkle field) of 0..3 transactions. Also: identifiers of immutable copies after in-place edits of the original, block == header / other-body comparisons after hashing, and objects deserialised from accepted non-canonical encodings.',
+    'block hash = sha256d(80-byte header) for constructed and deserialised blocks (arbitrary merkle field) of 0..3 transactions. Also: identifiers of immutable copies after in-place edits of the original, block == header / other-body comparisons after hashing, and objects deserialised from accepted non-canonical encodings. Failing computations come first, the witness hash is also asked for before the txid, an immutable snapshot is taken after every stage of the edit sequence, and runs of 40 short-lived blocks / transactions / headers report their own identifiers.',
     'DESIGN.md 3 C02', 'Oracle ref/wire.py + hashlib.', 'bounded exhaustive enumeration (complete product of shapes x witness patterns) against a reference model')
 
 add('C03', 'exploration',
@@ -68,7 +68,7 @@ add('C10', 'fault_enumeration',
     'alphabet string of length <=3 (<=4) through decode/encode; strings with characters outside the alphabet at every position; '
     'every version 0..255 x payload length 0..40,64,255 through Base58Check; every single substitution, deletion, insertion and '
     'truncation of 20 valid Base58Check strings (and every double substitution of one in thorough) judged by the reference '
-    'checksum rule; every decoding shorter than 5 bytes. Plus all strings of length 4..11 over {1,2,z} (zero-digit runs), 17 non-ASCII confusable characters at every position, and same-payload objects with different versions. Plus strings around every power of 58 and 256 (digit / byte length boundaries).',
+    'checksum rule; every decoding shorter than 5 bytes. Plus all strings of length 4..11 over {1,2,z} (zero-digit runs), 17 non-ASCII confusable characters at every position, and same-payload objects with different versions. Plus strings around every power of 58 and 256 (digit / byte length boundaries). A valid Base58Check string and a valid plain string are decoded right after every refused string; parsed and printed objects are re-versioned.',
     'DESIGN.md 3 C10', 'Oracle ref/base58.py (big-integer definition; bijection self-test).',
     'exhaustive single-fault enumeration + exhaustive short-input enumeration against a reference model')
 
@@ -117,7 +117,7 @@ add('C14', 'exploration',
     'UTF-8) x 5 owned nonces + 1 unowned draw (x 4 chains for k=1): 65-byte signature, header byte, reference public-key recovery '
     '= signer key, deterministic (r, low s), digest = sha256d(varstr(magic)||varstr(utf-8)), VerifyMessage true for the own P2PKH '
     'address in three forms and false for the other compression, P2SH of the same hash, two other keys and 7 message '
-    'perturbations; recover_compact against the reference for every header byte 27..34 incl. recovery ids 2/3. Plus 8 magic strings (default, empty, non-ASCII, 253 bytes) with cross-verification.',
+    'perturbations; recover_compact against the reference for every header byte 27..34 incl. recovery ids 2/3. Plus 8 magic strings (default, empty, non-ASCII, 253 bytes) with cross-verification. A third of the cases use the message object as a dictionary key / compare it before signing, a third serialise it first.',
     'DESIGN.md 3 C14', 'Oracle ref/secp256k1.py + ref/base58.py + hashlib; nonce owned as in C13.',
     'bounded exhaustive enumeration (complete product with full negative table) against a reference model')
 
@@ -130,7 +130,7 @@ add('C06', 'model_checking',
     'operand products (24 encodings, WITHIN 24^3, PICK/ROLL, hash opcodes on every length 0..130, RIPEMD-160 on every length '
     '0..600), every value around the four limits, CHECKSIG/CHECKMULTISIG with real keys (every slot assignment incl. duplicated '
     'and out-of-order signatures, key order, dummy, NULLDUMMY, CODESEPARATOR placement) and VerifyScript on all short script '
-    'pairs and P2SH spends under all 12 flag sets.',
+    'pairs and P2SH spends under all 12 flag sets. Plus runs of 600 / 1100 distinct messages through a hash opcode followed by the first 150 again.',
     'DESIGN.md 3 C06', 'Oracle ref/interp.py (agrees with the repository\'s script_valid/invalid vectors restricted to implemented flags; '
     'hash opcodes via hashlib; signatures via ref/secp256k1.py + ref/sighash.py). BFS dedup key = (stack, altstack, vfExec): '
     'sound for the BFS alphabet (no valid signatures, op count far from 201).',
@@ -144,7 +144,7 @@ add('C07', 'fault_enumeration',
     'failing operations (captured error state within limits); every prefix and every single-byte substitution of a valid '
     'signature, every prefix byte / truncation / substitution of 33- and 65-byte keys in CHECKSIG and CHECKMULTISIG; immutable '
     'and mutable transactions with 1..3 inputs and indices 0..len(vin)+1. After every case every transaction handed in is compared '
-    'with its baseline snapshot (serialisation, fields, object identities). Plus CHECKMULTISIG(VERIFY) with every kind of key-/signature-count operand after 0/180/200 counted operations (captured nOpCount within limits). Plus calls with the flags argument omitted and 18 hash types (incl. undefined) x 0..3 outputs. A call that does not return within the engine watchdog is reported as a violation with the stuck shard.',
+    'with its baseline snapshot (serialisation, fields, object identities). Plus CHECKMULTISIG(VERIFY) with every kind of key-/signature-count operand after 0/180/200 counted operations (captured nOpCount within limits). Plus calls with the flags argument omitted and 18 hash types (incl. undefined) x 0..3 outputs. A call that does not return within the engine watchdog is reported as a violation with the stuck shard. Plus ONE mutable transaction verified at every index, edited in place by the caller (whole catalogue) and verified again.',
     'DESIGN.md 3 C07', 'No reference semantics needed. A dying worker (OpenSSL via ctypes) is attributed through the published current case.',
     'exhaustive fault enumeration (all short inputs, all single truncations/substitutions) with a containment oracle')
 
@@ -179,7 +179,7 @@ add('C12', 'model_checking',
     'under every (previous chain, chain) pair, P2PKH converter variants (PUSHDATA1/2/4, bare compressed/uncompressed/hybrid '
     'pubkey, strict modes), a refusal catalogue (cross-chain, witness versions 1..16, v0 lengths 2..40, every version byte, '
     'payload lengths 0..40 and 64), every printable string of length <=2 on 3 chains, every single-character '
-    'substitution/deletion/insertion of 12 valid addresses; outcome = reference decision and never another exception type.',
+    'substitution/deletion/insertion of 12 valid addresses; outcome = reference decision and never another exception type. The battery parses the upper-case rendering of every bech32 address in every state (printing stays lower-case afterwards); the fault family substitutes 17 look-alike characters inside upper-case renderings.',
     'DESIGN.md 3 C12', 'Oracles ref/base58.py + ref/bech32.py + chain table. State space is small by nature (selection is memoryless); '
     'one known finding (bare 65-byte pubkey truncated to 64 bytes) is listed in known_findings.json.',
     'explicit-state breadth-first search over configuration histories plus exhaustive single-fault enumeration against reference codecs')
